@@ -50,6 +50,7 @@ type rbScn struct {
 	// the only long time span of the case is one jump far beyond the 10 s cap (never a noticeable sleep)
 	paceOverride bool
 	plMutated    bool
+	plStillMedia bool
 }
 
 func rbPick[T any](r *rand.Rand, xs []T) T { return xs[r.Intn(len(xs))] }
@@ -307,6 +308,11 @@ func (sc *rbScn) toCase() *rbCase {
 		c.cmp = "class"
 	default:
 		c.cmp = "full"
+	}
+	// a mutated media playlist that still parses may carry several problems at once (e.g. no EXT-X-MAP any more AND no
+	// ENDLIST): a processing error then races with a download-loop error, only eos / err is schedule independent
+	if sc.plMutated && sc.plStillMedia && c.cmp == "full" {
+		c.cmp = "class"
 	}
 	// MPEG-TS views depend on the download order (one reader across segments): a mutated playlist that still parses
 	// may change it
@@ -995,6 +1001,7 @@ func rbGenCase(r *rand.Rand, _ int, tier string) (*rbCase, []string) {
 					cur = pls[0]
 				}
 				b, label := rbMutatePlaylist(r, cur)
+				sc.plStillMedia = rbPrimaryKind(b) == "media"
 				sc.primary = b
 				sc.fault = "playlist:primary:" + label
 				sc.tags = append(sc.tags, "plmut=primary:"+label)
@@ -1010,6 +1017,7 @@ func rbGenCase(r *rand.Rand, _ int, tier string) (*rbCase, []string) {
 					}
 				}
 				b, label := rbMutatePlaylist(r, pls[seq])
+				sc.plStillMedia = rbPrimaryKind(b) == "media"
 				if st.plBodies == nil {
 					st.plBodies = map[int][]byte{}
 				}
